@@ -1540,3 +1540,34 @@ Lemma expiry_extended_diverges :
   get_entry (nth 0 (s_dbs (replay_o 2000 (trecs (trace_of extended_history) dbs0 None))) empty_db) (bs "q") = None /\
   timed_run 2000 (trace_of extended_history) dbs0 = false.
 Proof. repeat (apply conj; [vm_compute; reflexivity|]). vm_compute; reflexivity. Qed.
+
+Lemma restart_redo_and_file now s ol :
+  s_dbs (restart_o now s ol) = s_dbs (replay_o now ol) /\ aof_log (restart_o now s ol) = aof_log s.
+Proof. split; reflexivity. Qed.
+Lemma plain_sample :
+  s_dbs (replay_o 7 (trecs (trace_of plain_history) dbs0 None)) = s_dbs (run_tevs plain_history) /\
+  len (aof_log (run_tevs plain_history)) = 15 /\
+  len (d_data (nth 0 (s_dbs (run_tevs plain_history)) empty_db)) = 4.
+Proof.
+  destruct plain_history_ok as (H1 & H2 & H3 & H4 & _).
+  exact (conj (proj2 (replay_all_dbs 7 plain_history H1 H2)) (conj H3 H4)).
+Qed.
+Lemma timed_sample :
+  (forall i k, get_entry (nth i (s_dbs (replay_o day (trecs (trace_of timed_history) dbs0 None))) empty_db) k =
+               get_entry (nth i (s_dbs (run_tevs timed_history)) empty_db) k) /\
+  len (aof_log (run_tevs timed_history)) = 22 /\
+  In [FBulk (bs "SREM"); FBulk (bs "s"); FBulk (bs "a"); FBulk (bs "c")] (aof_log (run_tevs timed_history)) /\
+  In [FBulk (bs "XADD"); FBulk (bs "x"); FBulk (bs "1800-0"); FBulk (bs "f"); FBulk (bs "v")] (aof_log (run_tevs timed_history)) /\
+  In [FBulk (bs "LPOP"); FBulk (bs "l")] (aof_log (run_tevs timed_history)) /\
+  In [FBulk (bs "PEXPIREAT"); FBulk (bs "k"); FBulk (bs "100001000")] (aof_log (run_tevs timed_history)).
+Proof.
+  destruct timed_history_ok as (H1 & H2 & H3 & H4 & H5 & H6 & H7 & H8 & _).
+  exact (conj (proj2 (replay_any_time_b day timed_history H1 H2 H3)) (conj H4 (conj H5 (conj H6 (conj H7 H8))))).
+Qed.
+Lemma restart_sample :
+  forall i k, get_entry (nth i (s_dbs (restart_o day (run_tevs timed_history) (trecs (trace_of timed_history) dbs0 None))) empty_db) k =
+              get_entry (nth i (s_dbs (run_tevs timed_history)) empty_db) k.
+Proof.
+  destruct timed_history_ok as (H1 & H2 & H3 & _).
+  exact (restart_recovers day timed_history H1 H2 (fits_b_run _ _ H3)).
+Qed.
